@@ -43,6 +43,9 @@ META = dict(
 META["rule"] += (
     " " + 'Added after the second round of seeded changes: the same links listed in shuffled order and (undirected) either orientation through the edge-list constructor and FromIGraph; copies, copies of copies and save/Load round trips of such igraph-built objects, and copies of loaded objects.')
 
+META["rule"] += (
+    " " + 'Added after the third round: 40 % of the link attributes carry either sign; `FromIGraph` twice on one igraph object and on the embedded graph of a network; ClimateNetwork save -> Load with its three files.')
+
 FORMATS = ["graphml", "graphmlz", "pickle", "gml"]
 
 
